@@ -35,11 +35,14 @@ def task_plumbing(pr, repo):
     pr.under_contract(fi)
     seen = {}
 
+    A = repo.cls('propka.atom.Atom')
+
     def galp(ex, ctx, fi_, a, k, so):
         seen['chains'] = k.get('chains', 'MISSING')
         seen['keep'] = k.get('keep_protons', 'MISSING')
         seen['ignore'] = k.get('ignore_residues', 'MISSING')
-        return []
+        return [('1A', record('atomQ', A, chain_id='Q', conformation_container=None, molecular_container=None)),
+                ('1A', record('atomB', A, chain_id=' ', conformation_container=None, molecular_container=None))]
     ex.contracts[reader.FN] = galp
 
     def thunk(ex, ctx):
@@ -49,8 +52,10 @@ def task_plumbing(pr, repo):
         mol = record('mol', None, options=record('options', None, chains=ch, keep_protons=keep))
         params = record('P', None, ignore_residues=ign)
         ex.call_function(fi, ['f.pdb', params, mol])
-        ctx.oblige('OP: read_pdb passes options.chains, options.keep_protons and parameters.ignore_residues unchanged to the record reader',
-                   seen.get('chains') is ch and seen.get('keep') is keep and seen.get('ignore') is ign)
+        ctx.oblige('OP: read_pdb passes options.chains, options.keep_protons and parameters.ignore_residues unchanged to the record reader, '
+                   'and leaves the selection list itself untouched for the next input of the same invocation',
+                   seen.get('chains') is ch and seen.get('keep') is keep and seen.get('ignore') is ign
+                   and ch == ['Q', ' '] and ign == ['HOH'] and mol.attrs['options'].attrs['chains'] is ch)
     pr.explore(ex, thunk, 'read_pdb')
     # argparse declaration of -c, checked on the AST of build_parser
     bp = repo.func('propka.lib.build_parser')
